@@ -157,7 +157,9 @@ def build_chem(spec, analytic=False):
     for f in ('Tm', 'Tb', 'Hfus', 'Sfus', 'S0'):
         setattr(c, '_' + f, spec[f])
     c._Hvap = FakeHvap(spec['hvap'], spec['hvap_val'])
-    hs = {ph: FakeCn(ph, spec['seed'], bool(t), rec, ANALYTIC[ph] if analytic else None) for ph, t in zip('slg', spec['has'])}
+    k = 1. + (spec['seed'] % 7) / 8.            # analytic mode: chemicals with different seeds have different heat capacities
+    hs = {ph: FakeCn(ph, spec['seed'], bool(t), rec, (ANALYTIC[ph][0] * k, ANALYTIC[ph][1] * k) if analytic else None)
+          for ph, t in zip('slg', spec['has'])}
     err = None
     tdp = getattr(sys.modules['thermosteam._chemical'], 'TDependentProperty', None)
     try:
@@ -951,6 +953,33 @@ def oracle_mix_pressure(specs):
     return None
 
 
+def oracle_pkg(case):
+    """every package derived by the operations: mixture H / Cn are the mole-weighted sums over ITS chemicals in ITS order,
+    and a one-component flow has the entropy of that component"""
+    specs = [s if complete(s) else dict(_witness_spec(s['seed'], s['pr']), Tm=TMS[s['seed'] % 4], Tb=TBS[s['seed'] % 4],
+                                        S0=VALS[1 + s['seed'] % 6], hvap_val=VALS[1 + (s['seed'] // 7) % 6] or 1000.) for s in case['chems']]
+    chems = [build_chem(s, analytic=True)[0] for s in specs]
+    # make the chemicals distinguishable: different constant offsets through H_ref would need source access; use S0 / Hfus / Hvap
+    store = run_pkg_ops(chems, case['ops'])
+    T, P = 350., P_REF
+    for k, t in enumerate(store):
+        own = t.chemicals.tuple
+        tag = f'[package #{k} = {case["ops"][k][0]}, chemicals {[chems.index(c) for c in own]}]'
+        n = len(own)
+        mols = [[0.] * j + [2.] + [0.] * (n - j - 1) for j in range(n)] + [[1. + 0.5 * j for j in range(n)]]
+        for phase in 'lg':
+            pureH = [c.H(phase, T, P) for c in own]; pureC = [c.Cn(phase, T) for c in own]; pureS = [c.S(phase, T, P) for c in own]
+            for m in mols:
+                got, want = t.mixture.H(phase, m, T, P), sum(x * y for x, y in zip(m, pureH))
+                if not close(got, want): return f'package_mixture_misaligned{tag}: mixture.H({phase!r}, {m}) = {got} but sum n_i H_i of its own chemicals = {want}'
+                got, want = t.mixture.Cn(phase, m, T), sum(x * y for x, y in zip(m, pureC))
+                if not close(got, want): return f'package_mixture_misaligned{tag}: mixture.Cn({phase!r}, {m}) = {got} but sum n_i Cn_i of its own chemicals = {want}'
+                if sum(1 for x in m if x) == 1:
+                    got, want = t.mixture.S(phase, m, T, P), sum(x * y for x, y in zip(m, pureS))
+                    if not close(got, want): return f'package_mixture_misaligned{tag}: mixture.S({phase!r}, {m}) = {got} for a single component but n S_i = {want}'
+    return None
+
+
 def oracle_mix(specs, mols, phase, T, P):
     e = env(); tmo = e['tmo']
     chems = [build_chem(s, analytic=True)[0] for s in specs]
@@ -1006,6 +1035,8 @@ def oracle(case):
         return oracle_db(case)
     if case['type'] == 'hist':
         return oracle_hist(case)
+    if case['type'] == 'pkg':
+        return oracle_pkg(case)
     if case['type'] == 'sfus':
         out = run_init_data(case)
         if out['stored_Hfus'] is not None and out['stored_Tm'] is not None and F(out['stored_Tm']) != 0:
@@ -1052,6 +1083,7 @@ def search_cases(rng, tier):
             {'type': 'hist', 'chems': [a, b], 'ops': [['copymodels', 0, 1, ['Cn']], ['setsc', 0, 'Tb', 400.5], ['atstate', 1, 'g'], ['setpr', 0, 's']], 'queries': qs, 'ln': [0., 1.]}]
     for k in range(20 if tier == 'quick' else 200):
         out.append(gen_hist(rng))
+        out.append(gen_pkg(rng))
     for k in range(40 if tier == 'quick' else 400):
         spec = gen_spec(rng, complete=True)
         spec['kind'], spec['sp'] = 'handle', None
@@ -1062,6 +1094,9 @@ def search_cases(rng, tier):
 def shrink(case):
     if case.get('type') == 'hist':
         return vf.shrink_list(case, 'ops', oracle)
+    if case.get('type') == 'pkg':
+        # keep the observations consistent with the packages that remain: drop them, the oracle does not use them
+        return vf.shrink_list(dict(case, obs=[]), 'ops', oracle)
     return case
 
 
@@ -1077,7 +1112,18 @@ def _witness_spec(seed, pr):
 _HA = {'pr': 'l', 'Tm': 200., 'Tb': 350., 'Hfus': 1000., 'Sfus': 5., 'S0': 12.25, 'cn': [24., 64., 32.], 'hv': 40650.}
 _HB = dict(_HA, cn=[40., 128., 75.5], hv=6010.5, pr='g')
 _HQ = [['H', 'g', 400., P_REF], ['S', 'g', 400., 2 * P_REF], ['H', 'l', 300., P_REF], ['S', 's', 250., P_REF]]
+def _pkg_spec(seed, pr):
+    return dict(_witness_spec(seed, pr), Tm=TMS[seed % 4], Tb=TBS[seed % 4], S0=VALS[1 + seed % 6], Hfus=VALS[1 + seed % 5])
+
+
+_PK = [_pkg_spec(11, 'l'), _pkg_spec(12, 'g'), _pkg_spec(13, 's'), _pkg_spec(14, 'l')]
 CORPUS = [
+    # packages: the same chemicals in another order, strict subsets, extension, ideal()
+    {'type': 'pkg', 'chems': _PK, 'ops': [['new', [0, 1, 2]], ['subset', 0, [2, 0, 1]], ['subset', 1, [1, 2]], ['extended', 0, [3, 1]],
+                                       ['ideal', 1], ['subset', 4, [0, 1, 2]]],
+     'obs': [['H', 1, 'l', [3., 0., 0.], 300., P_REF], ['Cn', 1, 'g', [1., 2., 0.5], 350., P_REF], ['S', 1, 'l', [0., 0., 2.], 350., 2 * P_REF],
+             ['H', 2, 'g', [1., 2.], 350., P_REF], ['H', 3, 'l', [1., 0., 0., 2.], 350., P_REF], ['H', 4, 'l', [0., 1., 0.], 300., P_REF],
+             ['H', 5, 'l', [0., 0., 1.], 300., P_REF], ['Cn', 5, 'l', [2., 1., 0.5], 300., P_REF]], 'ln': [0., 1.]},
     # histories aimed at every call site of the wiring (seeded changes C07-1, C07-2 and the shared user-method containers)
     {'type': 'hist', 'chems': [_HA], 'ops': [['copy', 0], ['mutcn', 0, [40., 128., 75.5]]], 'queries': _HQ, 'ln': [0., 1.]},
     {'type': 'hist', 'chems': [_HA], 'ops': [['copy', 0], ['redefcn', 0, [40., 128., 75.5]]], 'queries': _HQ, 'ln': [0., 1.]},
